@@ -678,6 +678,40 @@ def _lookup_fails(recv, fn, env):
     return f_not(f_or([("is", pl, k_) for k_ in keys]))
 
 
+def opt_some_formula(e, env, depth=0):
+    """(formula of '`e` holds a value', place of that value) for Option/Result adaptor chains, so that
+    `r.ok().and_then(|x| match x { P => Some(..), _ => None })` reads like `r ~ Ok(P)`; None when `e` is not such a chain"""
+    e = A.peel(e)
+    if depth > 5 or A.kind(e) != "Expr::MethodCall":
+        return None
+    m, recv, args = e["method"]["sym"], e["receiver"], e["args"]
+    inner = opt_some_formula(recv, env, depth + 1)
+    if m == "ok" and not args:
+        if inner is not None:
+            return inner
+        pl = _ptext(place_of(recv, env))
+        return ("is", pl, "Ok"), f"{pl}.0"
+    if m in ("map", "inspect", "cloned", "copied", "as_ref", "as_deref") and inner is not None:
+        return inner
+    if m in ("and_then", "filter_map") and len(args) == 1 and A.kind(args[0]) == "Expr::Closure" and len(args[0]["inputs"]) == 1:
+        base = inner
+        if base is None:
+            pl = _ptext(place_of(recv, env))
+            base = (("is", pl, "Some"), f"{pl}.0")
+        cl = args[0]
+        body = cl["body"]
+        while A.kind(body) == "Expr::Block" and len(body["block"]["stmts"]) == 1 and A.kind(body["block"]["stmts"][0]) == "Stmt::Expr":
+            body = body["block"]["stmts"][0]["0"]
+        ids = A.pat_idents(cl["inputs"][0])
+        if A.kind(body) == "Expr::Match" and len(ids) == 1 and A.render(A.peel(body["expr"])) == ids[0]:
+            somes = [a for a in body["arms"] if A.render(A.unblock(a["body"])).startswith("Some(")]
+            nones = [a for a in body["arms"] if A.render(A.unblock(a["body"])) == "None"]
+            if len(somes) == 1 and len(somes) + len(nones) == len(body["arms"]) and somes[0].get("guard") is None:
+                return f_and([base[0], pat_formula(base[1], somes[0]["pat"], {})]), f"{base[1]}.0"
+        return None
+    return None
+
+
 def guard_formula(fn, site, parents, lets_text, lets_nodes=None):
     """the condition under which `site` is reached inside `fn`, as a formula. `lets_text`: name -> text of the
     function's single-assignment aliases. Early *neutral* exits (`if c { return Ok(..) }`, `continue`) of the enclosing
@@ -773,8 +807,12 @@ def guard_formula(fn, site, parents, lets_text, lets_nodes=None):
                 b = {}
                 pat = {"_": "Pat::TupleStruct", "attrs": [], "qself": None, "path": {"_": "Path", "leading_colon": None, "segments": [{"ident": {"_": "Ident", "sym": "Some", "span": [0, 0]}, "arguments": "PathArguments::None"}]}, "paren_token": "Paren", "elems": [p["inputs"][0]]}
                 try:
-                    conj.append(pat_formula(place_of(par["receiver"], env), pat, b))
-                    env.update(b)
+                    osf = opt_some_formula(par["receiver"], env)
+                    if osf is not None:
+                        conj.append(osf[0])
+                    else:
+                        conj.append(pat_formula(place_of(par["receiver"], env), pat, b))
+                        env.update(b)
                 except Exception:
                     pass
     return f_and(conj)
